@@ -2,7 +2,9 @@ import HedVerif.Driver.Util
 import HedVerif.Driver.C01
 import HedVerif.Driver.C07
 import HedVerif.Driver.C08
+import HedVerif.Driver.C06
 import HedVerif.Model.Closed
+import HedVerif.Model.ClosedRaw
 open Lean
 namespace HedVerif.Driver.Closed
 open HedVerif HedVerif.Driver
@@ -14,25 +16,65 @@ Closed mode of C07 / C08: self-contained requests, no oracle table.
 + `"tables"`: requests of the shape of `c07.validate` (their `"S"` is ignored).  Answer per table: `unmodelled`
 (a reason) or `exc` / `issues` computed by `Tabular.validateClosed`.
 
+`closed.c07raw`: the environment + `"pairs"`: `{"sidecar": [[name, entry]], "header", "rows", "maskByRow", "guardDelay"}`
+(sidecar entries encoded as for `c06.assemble`).  Answer per pair: `unmodelled` or `exc` / `issues` computed by
+`Tabular.validateClosedRaw` from the raw inputs only.
+
 `closed.c08`: the same environment + `"docs"`: `{"doc": encoded JSON, "fixed": bool}`.  Answer per document:
 `unmodelled` or `ok` / `raise` computed by `SidecarV.validateClosed`.
 -/
 
 def kBanned : Tabular.RIssue := ⟨"TEMPORAL_TAG_ERROR:TEMPORAL_TAG_NO_TIME".toList, 1⟩
 
+/-- `Tabular.validateClosed env kBanned cfg T`, or why the table is outside the closed fragment -/
+def runTable (env : Validate.Env) (kB : Tabular.RIssue) (cfg : Tabular.Cfg) (T : List Tabular.Row) : Json :=
+  match (HedVerif.Closed.consulted cfg T).find? (HedVerif.Closed.textUnmodelled env) with
+  | some t => jobj [("unmodelled", Json.str (if HedVerif.Closed.hasDelay t then "Delay group" else "string outside Validate")),
+                    ("text", jstr t)]
+  | none =>
+    let split := T.any (HedVerif.Closed.rowSplit env kB cfg)
+    if split && HedVerif.Closed.splitAmbiguous env kB cfg T then jobj [("unmodelled", Json.str "joined text of a split row is ambiguous")]
+    else if split && HedVerif.Closed.splitRaises env kB cfg T then jobj [("unmodelled", Json.str "string outside Validate")]
+    else
+    -- no split row: `Tabular.validateClosed env kB cfg T` (= `validateClosedCells`, `C07.cells_eq_closed`); otherwise
+    -- `Tabular.validateClosedCells env kB cfg T`; each string validated once (`Closed.memoTab_eq`)
+    let o := if split then HedVerif.Closed.cellsOracle env kB cfg T else HedVerif.Closed.tabOracle env kB
+    match Tabular.validate { cfg with o := HedVerif.Closed.memoTab o (HedVerif.Closed.consulted cfg T).eraseDups } T with
+    | .error e => jobj [("exc", Json.str (C07.excName e))]
+    | .ok out => jobj [("split", jbool split), ("issues", jarr (out.map fun i =>
+        jarr [jstr i.kind, jnat i.sev, jopt jnat i.row, jopt jstr i.col, Json.str (C07.srcName i.src), jstr i.text]))]
+
 def tableJson (env : Validate.Env) (j : Json) : Except String Json := do
   let cfg ← C07.cfgOf j
   let T ← (← getArr j "rows").mapM C07.rowOf
-  match (HedVerif.Closed.consulted cfg T).find? (HedVerif.Closed.textUnmodelled env) with
-  | some t => pure <| jobj [("unmodelled", jstr t)]
-  | none =>
-    if T.any (HedVerif.Closed.rowSplit env kBanned cfg) then pure <| jobj [("unmodelled", Json.str "malformed cell in a checked row")] else
-    -- = `Tabular.validateClosed env kBanned cfg T` (`Closed.memoTab_eq`), each string validated once
-    let ccfg := HedVerif.Closed.closeCfg env kBanned cfg
-    match Tabular.validate { ccfg with o := HedVerif.Closed.memoTab ccfg.o (HedVerif.Closed.consulted cfg T).eraseDups } T with
-    | .error e => pure <| jobj [("exc", Json.str (C07.excName e))]
-    | .ok out => pure <| jobj [("issues", jarr (out.map fun i =>
-        jarr [jstr i.kind, jnat i.sev, jopt jnat i.row, jopt jstr i.col, Json.str (C07.srcName i.src), jstr i.text]))]
+  pure (runTable env kBanned cfg T)
+
+/-- `closed.c07raw`: one (sidecar, events table) pair; everything the file layer needs is computed from them
+(`Tabular.validateClosedRaw`) -/
+def rawConsts (j : Json) : Except String Raw.Consts := do
+  pure { maskByRow := ← getBool j "maskByRow", guardDelay := ← getBool j "guardDelay",
+         kKey := ⟨"SIDECAR_KEY_MISSING:SIDECAR_KEY_MISSING".toList, 10⟩,
+         kRef := ⟨"SIDECAR_BRACES_INVALID:INVALID_COLUMN_REF".toList, 1⟩,
+         kUnordered := ⟨"ONSETS_UNORDERED:ONSETS_UNORDERED".toList, 10⟩,
+         kUnknownCol := ⟨"HED_UNKNOWN_COLUMN:HED_UNKNOWN_COLUMN".toList, 10⟩,
+         kBanned := kBanned, kTemporal := C07.temporalKind }
+
+def pairJson (env : Validate.Env) (j : Json) : Except String Json := do
+  let sc ← (← getArr j "sidecar").mapM fun kv => do
+    match kv with
+    | Json.arr #[Json.str k, v] => pure (k.toList, ← C06.toJ v)
+    | _ => throw "sidecar member must be [name, entry]"
+  let t : Assemble.Table := ⟨← C06.strList (← getVal j "header"), ← (← getArr j "rows").mapM C06.strList⟩
+  let k ← rawConsts j
+  if !Raw.headerOk t.header then pure <| jobj [("unmodelled", Json.str "header")]
+  else if (sc.map (·.1)).eraseDups.length != sc.length then pure <| jobj [("unmodelled", Json.str "duplicate sidecar keys")]
+  else if Raw.declaresDefinition sc then pure <| jobj [("unmodelled", Json.str "definition in the sidecar")]
+  else if Raw.onsetUnmodelled t then pure <| jobj [("unmodelled", Json.str "onset spelling")]
+  else if Raw.refOrderMatters sc t then pure <| jobj [("unmodelled", Json.str "reference set order")]
+  else
+    -- = `Tabular.validateClosedRaw env k sc t` (definition of `validateClosedRaw`, then as for `closed.c07`)
+    let r := runTable env k.kBanned (Raw.rawCfg k sc t) (Raw.rawRows sc t)
+    pure <| r.setObjVal! "columns" (jarr ((Raw.aColumns sc t.header).map jstr))
 
 /-- every entry string of the sidecar and every assembled string the full checks are asked about -/
 def sidecarTexts (env : Validate.Env) (g : SidecarV.Guards) (doc : SidecarV.Json) :
@@ -55,9 +97,7 @@ def sidecarUnmodelled (env : Validate.Env) (g : SidecarV.Guards) (doc : SidecarV
   match sidecarTexts env g doc with
   | .error _ => none      -- the model's own answer (a raise) stands
   | .ok (entries, full) =>
-    let refs := entries.flatMap SidecarV.findRefs
     if entries.any (fun s => HedVerif.Closed.defCount env s != 0) then some "definition in the sidecar"
-    else if !refs.isEmpty && (entries.contains SidecarV.NA || refs.contains SidecarV.HED) then some "n/a spliced into a reference"
     else if entries.any (fun s => Validate.unmodelledP env (HedVerif.Closed.parseNoRefs env s)) then some "value class pattern"
     else if full.any (fun s => Validate.unmodelledP env (Validate.parse env s)
                                || Validate.dupRaises env (Validate.parse env s).root0) then some "assembled string"
@@ -83,6 +123,9 @@ def handle (op : String) (j : Json) : Option (Except String Json) :=
   | "closed.c07" => some do
       let env ← C01.envOf j
       pure (jobj [("answers", jarr (← (← getArr j "tables").mapM (tableJson env)))])
+  | "closed.c07raw" => some do
+      let env ← C01.envOf j
+      pure (jobj [("answers", jarr (← (← getArr j "pairs").mapM (pairJson env)))])
   | "closed.c08" => some do
       let env ← C01.envOf j
       pure (jobj [("answers", jarr (← (← getArr j "docs").mapM (docJson env)))])
